@@ -246,6 +246,7 @@ func (f *impFn) lhsType(lhs ast.Expr, c *ictx) *ity {
 		if xt.k == "map" {
 			return xt.elem
 		}
+		f.p.die(lhs, "element write on %v (slices are values in the subset)", xt)
 	}
 	_, t := f.expr(lhs, nil, c)
 	return t
@@ -658,7 +659,7 @@ func (f *impFn) mkCont(K *kont, c *ictx) *kont {
 func (f *impFn) retTy() string {
 	var ts []string
 	if f.recv != "" {
-		ts = append(ts, f.p.ltyA(f.lookup(f.recv), false))
+		ts = append(ts, f.p.ltyA(f.recvTy, false))
 	}
 	var rs []string
 	for _, r := range f.results {
